@@ -180,6 +180,10 @@ class TreeBuilder(ET.TreeBuilder):
         return super().end(tag)
 
     def close(self):
+        # As in end(): trailing elements with neither data nor children may omit
+        # their end tag, e.g. a document consisting of one empty aggregate.
+        while self._open_tags and not self._open_tags[-1][1]:
+            super().end(self._open_tags.pop()[0])
         if self._open_tags:
             raise ParseError(f"Tag <{self._open_tags[-1][0]}> is never closed")
         return super().close()
